@@ -171,8 +171,9 @@ Section Hist.
     match r with Ok _ => [0] | Err _ => [1] | Crash _ => [2] end.
 
   (* reads with the given buffer sizes (one Read::read each); the last size repeats until the
-     end of the file when `to_end` *)
-  Fixpoint do_reads (fuel : nat) (b : bstate S) (sizes : list N) (to_end : bool)
+     end of the file when `to_end`.  zf: the bound on consecutive empty content blocks stepped
+     over by one read (Reader.next_block); more than the stream length always suffices *)
+  Fixpoint do_reads (zf fuel : nat) (b : bstate S) (sizes : list N) (to_end : bool)
     : bstate S * list (list N) :=
     match fuel with
     | O => (b, [[9]])
@@ -180,11 +181,11 @@ Section Hist.
       match sizes with
       | [] => (b, [])
       | n :: rest =>
-        match bread b n with
+        match bread zf b n with
         | (b1, Ok d) =>
           let again := match rest with [] => to_end && negb (len d =? 0) | _ => true end in
           let sizes' := match rest with [] => [n] | _ => rest end in
-          if again then let '(b2, rows) := do_reads fuel' b1 sizes' to_end in (b2, (0 :: d) :: rows)
+          if again then let '(b2, rows) := do_reads zf fuel' b1 sizes' to_end in (b2, (0 :: d) :: rows)
           else (b1, [0 :: d])
         | (b1, Err _) => (b1, [[1]])
         | (b1, Crash _) => (b1, [[2]])
@@ -218,7 +219,7 @@ Section Hist.
     | 2 :: i :: sizes =>
       match get_file r (name_at i) with
       | (r1, Ok (Some (b, size))) =>
-        let '(b1, rows) := do_reads fuel b sizes false in
+        let '(b1, rows) := do_reads fuel fuel b sizes false in
         (mkR (b_src b1) (r_meta r1), [7; size] :: rows)
       | (r1, Ok None) => (r1, [[4]])
       | (r1, x) => (r1, [err_row x])
@@ -226,7 +227,7 @@ Section Hist.
     | [3; i; n] =>
       match get_file r (name_at i) with
       | (r1, Ok (Some (b, size))) =>
-        let '(b1, rows) := do_reads fuel b [n] true in
+        let '(b1, rows) := do_reads fuel fuel b [n] true in
         (mkR (b_src b1) (r_meta r1), [7; size] :: rows)
       | (r1, Ok None) => (r1, [[4]])
       | (r1, x) => (r1, [err_row x])
